@@ -345,49 +345,55 @@ func runC08(r *mc.Run) {
 	r.Bounds["depth_blocks"] = depth
 	r.Rule = "at every state of a tree search over block histories (2 validators, relayer proposer + 1 voter; menu with queue-filling events, unlock maturity, elections): (honest) for 7 mempool classes the real PrepareProposal output must be ACCEPTed by a second replica, carry <= 16 txs and its execution-block message must succeed in FinalizeBlock; (converse) 28 single mutations of a well-formed proposal must be rejected by ProcessProposal and must not move the head when finalised anyway; (schedules, races) see schedule_* keys"
 	r.Assumptions = []string{"validators' clocks are not behind the proposer's", "ELSim canonical mode defines the well-behaved execution layer"}
-	root, err := enga.NewWorld(c08Cfg())
-	if err != nil {
-		panic(err)
-	}
-	defer root.Close()
-	menu := []enga.ABlock{
-		{},
-		{Events: []enga.Event{{Kind: "tx:hashes", N: 3}}},
-		{Events: []enga.Event{{Kind: "tx:deposits", N: 9}}},
-		{Events: []enga.Event{{Kind: "req:withdraw", N: 2}, {Kind: "req:withdraw", N: 2, Var: "bad-address"}, {Kind: "req:claim", N: 2}}},
-		{Events: []enga.Event{{Kind: "req:unlock", N: 2}}, Dt: 1},
-		{Dt: 2},
-		{Dt: 7}, // relayer election
-		{FailEth: true},
-		{Events: []enga.Event{{Kind: "req:create", N: 3}}},
-		{Absent: []int{1}},
-	}
-	c08Honest(r, root, nil)
-	c08Converse(r, root, nil)
-	t := &enga.Tree{Run: r, Depth: depth,
-		Menu: func(w *enga.World, path []enga.ABlock) []enga.ABlock { return menu },
-		Visit: func(path []enga.ABlock, pre any, child *enga.World, res *enga.Result) bool {
-			if res.Err != nil {
-				if res.Err.Error() == sim.ErrEmptySet.Error() {
+	var explore func(r *mc.Run, only []enga.ABlock)
+	explore = func(r *mc.Run, only []enga.ABlock) {
+		root, err := enga.NewWorld(c08Cfg())
+		if err != nil {
+			panic(err)
+		}
+		defer root.Close()
+		menu := []enga.ABlock{
+			{},
+			{Events: []enga.Event{{Kind: "tx:hashes", N: 3}}},
+			{Events: []enga.Event{{Kind: "tx:deposits", N: 9}}},
+			{Events: []enga.Event{{Kind: "req:withdraw", N: 2}, {Kind: "req:withdraw", N: 2, Var: "bad-address"}, {Kind: "req:claim", N: 2}}},
+			{Events: []enga.Event{{Kind: "req:unlock", N: 2}}, Dt: 1},
+			{Dt: 2},
+			{Dt: 7}, // relayer election
+			{FailEth: true},
+			{Events: []enga.Event{{Kind: "req:create", N: 3}}},
+			{Absent: []int{1}},
+		}
+		c08Honest(r, root, nil)
+		c08Converse(r, root, nil)
+		t := &enga.Tree{Run: r, Depth: depth,
+			Menu: func(w *enga.World, path []enga.ABlock) []enga.ABlock { return menu },
+			Visit: func(path []enga.ABlock, pre any, child *enga.World, res *enga.Result) bool {
+				if res.Err != nil {
+					if res.Err.Error() == sim.ErrEmptySet.Error() {
+						return false
+					}
+					r.Violate(mc.Violation{Class: "honest-block-fails:" + res.Stage, Msg: fmt.Sprintf("%v | history %v", res.Err, aPath(path)), Detail: engaDetail{Path: path}}, nil)
 					return false
 				}
-				r.Violate(mc.Violation{Class: "honest-block-fails:" + res.Stage, Msg: fmt.Sprintf("%v | history %v", res.Err, aPath(path)), Detail: engaDetail{Path: path}}, nil)
-				return false
-			}
-			if !res.EthOK && !res.Block.FailEth {
-				r.Violate(mc.Violation{Class: "honest-execution-block-message-fails", Msg: fmt.Sprintf("%s | history %v", res.Finalize.TxResults[0].Log, aPath(path)), Detail: engaDetail{Path: path}}, nil)
-			}
-			c08Honest(r, child, path)
-			if len(path) <= 1 || r.Thorough() {
-				c08Converse(r, child, path)
-			}
-			return true
-		},
+				if !res.EthOK && !res.Block.FailEth {
+					r.Violate(mc.Violation{Class: "honest-execution-block-message-fails", Msg: fmt.Sprintf("%s | history %v", res.Finalize.TxResults[0].Log, aPath(path)), Detail: engaDetail{Path: path}}, nil)
+				}
+				c08Honest(r, child, path)
+				if len(path) <= 1 || r.Thorough() {
+					c08Converse(r, child, path)
+				}
+				return true
+			},
+		}
+		t.Only = only
+		t.Explore(root)
+		r.Sample(map[string]any{"history": aPath(menu[1:4]), "mempool_classes": c08Pools, "mutations": len(c08Mutations())})
 	}
-	t.Explore(root)
+	treeRecheck(r, explore)
+	explore(r, nil)
 	c08RacePass(r)
 	c08Schedules(r)
-	r.Sample(map[string]any{"history": aPath(menu[1:4]), "mempool_classes": c08Pools, "mutations": len(c08Mutations())})
 }
 
 func replayC08(detail json.RawMessage) (bool, string) {
